@@ -183,25 +183,23 @@ def parse_input_const_value_node(
             ),
         )
         if not nested_object:
+            validated = generate_call(
+                func=generate_attribute(
+                    value=generate_subscript(
+                        value=generate_call(func=generate_name("globals")),
+                        slice_=generate_constant(field_type),
+                    ),
+                    attr=MODEL_VALIDATE_METHOD,
+                ),
+                args=[dict_],
+            )
+            if nested_list:
+                return validated
             return generate_call(
                 func=generate_name(FIELD_CLASS),
                 keywords=[
                     generate_keyword(
-                        value=generate_lambda(
-                            body=generate_call(
-                                func=generate_attribute(
-                                    value=generate_subscript(
-                                        value=generate_call(
-                                            func=generate_name("globals")
-                                        ),
-                                        slice_=generate_constant(field_type),
-                                    ),
-                                    attr=MODEL_VALIDATE_METHOD,
-                                ),
-                                args=[dict_],
-                            )
-                        ),
-                        arg="default_factory",
+                        value=generate_lambda(body=validated), arg="default_factory"
                     )
                 ],
             )
